@@ -75,6 +75,14 @@ def o_tx_wire(case):
     tx4 = Tx.from_hex(ref.hex())
     if tx4.as_bin() != ref or tx4.as_hex() != ref.hex():
         _bad("tx:from_hex", "from_hex(ref.hex()) does not re-serialise to ref")
+    # the same bytes arriving on a stream that can only be read forward (a pipe, a socket file): two transactions back to back
+    fwd = _ForwardOnly(ref + ref + b"\xa5")
+    for k in range(2):
+        tx5 = Tx.parse(fwd)
+        if tx5.as_bin() != ref:
+            _bad("tx:parse-forward-only-stream:" + shape, "transaction %d parsed from a forward-only stream re-serialises differently" % k)
+    if fwd.consumed != 2 * len(ref):
+        _bad("tx:parse-length:" + shape, "parse consumed %d of %d bytes of a forward-only stream" % (fwd.consumed, 2 * len(ref)))
 
     # ids
     want_id, want_wid = refser.txid(m), refser.wtxid(m)
@@ -107,6 +115,31 @@ def o_tx_wire(case):
     labels.add("form=" + shape)
     labels.add("coin=" + case["coin"])
     return sorted(labels)
+
+
+class _ForwardOnly:
+    """a binary stream offering read() only, like sys.stdin.buffer on a pipe or socket.makefile('rb')"""
+
+    def __init__(self, data):
+        self._f = io.BytesIO(data)
+        self.consumed = 0
+
+    def read(self, n=-1):
+        b = self._f.read(n)
+        self.consumed += len(b)
+        return b
+
+    def readable(self):
+        return True
+
+    def seekable(self):
+        return False
+
+    def seek(self, *a):
+        raise io.UnsupportedOperation("seek")
+
+    def tell(self):
+        raise io.UnsupportedOperation("tell")
 
 
 def _first_diff(a, b):
